@@ -184,6 +184,13 @@ connect_cpu(struct bay *bay, struct nanos6_cpu *mcpu)
 	/* Emit unknown subsystem on NULL */
 	mux_set_default(&bcpu->mux0, value_int64(ST_UNKNOWN_SS));
 
+	/* select_tr() reads the task type too, which can change while the
+	 * subsystem stays the same (a task resumed when already in the body) */
+	if (mux_add_depend(&bcpu->mux0, tt) != 0) {
+		err("mux_add_depend tt failed");
+		return -1;
+	}
+
 	/* Connect mux 1 using idle as select */
 	if (mux_init(&bcpu->mux1, bay, idle, tri, select_idle, 2) != 0) {
 		err("mux_init failed");
